@@ -46,6 +46,9 @@ pub struct Cfg {
     pub seam_env: bool,
     /// 0 = environment first, 1 = fair, 2 = tasks first.
     pub bias: u8,
+    /// What the process-wide `tracing` subscriber enables while this run's tasks execute
+    /// (see `logsub.rs`): 0 nothing, 1 WARN, 2 everything, 3 everything and formatted.
+    pub log: u8,
 }
 
 impl Cfg {
@@ -61,6 +64,7 @@ impl Cfg {
             write_stall: false,
             seam_env: false,
             bias: 0,
+            log: 0,
         }
     }
 
@@ -85,6 +89,7 @@ impl Cfg {
             write_stall: t.draw(3) == 2,
             seam_env: t.draw(2) == 1,
             bias: t.draw(3) as u8,
+            log: [0, 0, 0, 1, 1, 2, 3, 1][t.draw(8)],
         }
     }
 }
